@@ -114,7 +114,7 @@ class EquationParser(object):
             if mode == 'endogenous':
                 # Remove initial conditions equations
                 if '(0)' in varname:
-                    varname = varname.replace('(0)', '')
+                    varname = varname.replace('(0)', '').strip()
                     self.InitialConditions[varname] = eqn
                     continue
                 eqn = eqn.replace('(t-1)', '(k-1)')
